@@ -106,7 +106,10 @@ func generateConfig(r *rand.Rand, dumphook string, feedURLs []string) genConfig 
 		return []string{`"text"`, `true`, `1.5`, `[1, 2]`, `{ a = 1 }`, `1979-05-27T07:32:00Z`, `[]`, `""`}[r.Intn(8)]
 	}
 	intValue := func() string {
-		switch r.Intn(10) {
+		switch r.Intn(11) {
+		case 10:
+			// large values: around what fits 16, 31, 32 and 63 bits, and around 2^63 ns expressed in seconds
+			return []string{"65535", "65536", "65537", "2147483647", "2147483648", "4294967296", "9223372036", "9223372037", "1099511627776", "9223372036854775807", "9223372036854775806"}[r.Intn(11)]
 		case 0:
 			return "0"
 		case 1:
